@@ -246,7 +246,7 @@ Section Scale.
 
   (* ---- quadrature: nodes degree 1 (exactly: a linear map, no condition on the table), area degree 2 ----------- *)
   Lemma quad_node_scale p t0 t1 t2 : quad_node OpsR p (sc t0) (sc t1) (sc t2) = sc (quad_node OpsR p t0 t1 t2).
-  Proof. unfold quad_node, scl. v3. Qed.
+  Proof. unfold quad_node, bary_point, scl. v3. Qed.
   Lemma midpoint_scale a b : midpoint OpsR (sc a) (sc b) = sc (midpoint OpsR a b).
   Proof. unfold midpoint, scl. v3. Qed.
   Lemma area2_scale t0 t1 t2 : area2 OpsR (sc t0) (sc t1) (sc t2) = s * s * area2 OpsR t0 t1 t2.
